@@ -57,7 +57,7 @@ pub fn exec(func: &str, a: &mut Args) -> String {
 
 pub fn gen(r: &mut Rng, thorough: bool) -> Vec<(String, String)> {
     let mut v = Vec::new();
-    let n = if thorough { 1500 } else { 200 };
+    let n = if thorough { 500 } else { 200 };
     for it in 0..n {
         let lat = it % 2 == 0;
         for (_, args) in c08::gen_history_for_queries(r, thorough, lat, 4) {
